@@ -29,7 +29,7 @@ def mat_t(m):
     return tuple(tuple(int(v) for v in row) for row in m)
 
 
-def check_settings(cs, col, fsel=None, cap=250, budget=6.0):
+def check_settings(cs, col, fsel=None, cap=250, budget=6.0, groups=None):
     import adsg_core.optimization.assign_enc.matrix as mx
     from adsg_core.optimization.assign_enc.lazy_encoding import LazyEncoder
     from adsg_core.optimization.assign_enc.assignment_manager import AssignmentManager, LazyAssignmentManager
@@ -46,6 +46,8 @@ def check_settings(cs, col, fsel=None, cap=250, budget=6.0):
     nontrivial = False
     for grp, idx, fac, imp, imp_name in factories():
         if fsel is not None and (grp, idx, imp_name) != tuple(fsel):
+            continue
+        if groups is not None and grp not in groups:
             continue
         try:
             with common.time_limit(budget * 2.5):
@@ -283,6 +285,45 @@ def gen_case(seed, i):
     return gen.gen_settings(rnd, n_src=(2, 3), n_tgt=(2, 3), p_patterns=.7, alphabet=gen.DEG_ALPHABET[:6])
 
 
+def classic_family(quick):
+    """Deterministic family of the textbook assignment patterns the pattern encoders are written for, with the
+    parameters the random classes rarely hit: minimum amounts of 0..2 (3) per open-ended node, 2..4 (5) nodes on the other
+    side that take exactly one / at most one connection, both orientations."""
+    out = []
+    mins = (0, 1, 2) if quick else (0, 1, 2, 3)
+    for kind in ('partitioning', 'assigning', 'combining'):
+        for ns in (1, 2):
+            for nt in ((2, 3, 4) if quick else (2, 3, 4, 5)):
+                for mn in mins:
+                    for other in ([1], [0, 1]):
+                        if kind == 'partitioning':
+                            if ns * mn > nt:
+                                continue
+                            src = [{'deg': {'min': mn}, 'rep': False} for _ in range(ns)]
+                            tgt = [{'deg': {'list': list(other)}, 'rep': False} for _ in range(nt)]
+                        elif kind == 'assigning':
+                            if other == [1] or nt > 3:
+                                continue
+                            src = [{'deg': {'min': mn}, 'rep': False} for _ in range(ns)]
+                            tgt = [{'deg': {'min': 0}, 'rep': False} for _ in range(nt)]
+                        else:
+                            if ns > 1 or mn == 0 or mn > nt:
+                                continue
+                            src = [{'deg': {'list': [mn]}, 'rep': False}]
+                            tgt = [{'deg': {'list': list(other)}, 'rep': False} for _ in range(nt)]
+                        for transposed in (False, True):
+                            out.append({'src': tgt if transposed else src, 'tgt': src if transposed else tgt,
+                                        'excluded': [], 'patterns': None, 'max_conn_parallel': None})
+    return out
+
+
+def family_task(task, col):
+    fam = classic_family(task['quick'])
+    for j in range(task['which'], len(fam), task['of']):
+        col.count('monitor_classic_family_settings')
+        common.guard(col, check_settings, fam[j], col, cap=600, groups=('pattern',))
+
+
 def worker(task, col):
     from adsg_core.optimization.assign_enc.assignment_manager import AssignmentManager, LazyAssignmentManager
     M.Tap(AssignmentManager, 'get_matrix', counter=col.count)
@@ -291,6 +332,9 @@ def worker(task, col):
     if task.get('replay'):
         v = task['replay']['violation']
         common.guard(col, check_settings, v['spec'], col, fsel=v.get('factory'), cap=600)
+        return
+    if task.get('kind') == 'family':
+        family_task(task, col)
         return
     if task['shard'] == 0:
         for c in common.corpus('C10'):
@@ -312,6 +356,10 @@ def main(run):
                     t['_env'] = env
                     t['mode'] = mode
                     tasks.append(t)
+        nf = 4 if run.tier == 'quick' else 8
+        for k in range(nf):
+            tasks.append({'kind': 'family', 'which': k, 'of': nf, 'quick': run.tier == 'quick', 'shard': 9100 + k,
+                          'lo': 0, 'hi': 0, 'seed': run.seed})
         run.map(tasks, timeout=3400)
     run.finish('generated connector settings (<=3x3, existence patterns, overrides, classic assignment patterns) x '
                'every encoder factory of the registry with its default imputer + every imputer with two representative '
